@@ -13,7 +13,10 @@ import (
 	"flag"
 	"fmt"
 	"os"
+	"sync/atomic"
 	"testing"
+	"testing/synctest"
+	"time"
 )
 
 var (
@@ -60,7 +63,23 @@ func TestEngine(t *testing.T) {
 	switch *flagEngine {
 	case "tree":
 		engineTree(t, tr)
+	case "ctrl":
+		engineCtrl(t, tr)
 	default:
 		t.Fatalf("unknown engine %q", *flagEngine)
+	}
+}
+
+// settle reaches quiescence: every goroutine of the bubble durably blocked, no goroutine merely asleep in a
+// perturbation hook, and no library activity (log calls) during the last slice of virtual time.
+func settle(hookN *uint64) {
+	for i := 0; i < 500; i++ {
+		synctest.Wait()
+		before := atomic.LoadUint64(hookN)
+		time.Sleep(20 * time.Millisecond)
+		synctest.Wait()
+		if i >= 1 && atomic.LoadUint64(hookN) == before {
+			return
+		}
 	}
 }
